@@ -8,7 +8,7 @@
    Statements only; proofs in circuit/CThm.v, CThm2.v, CViewsThm.v, CFoldThm.v. *)
 From Coq Require Import List ZArith Sorted.
 Import ListNotations.
-From BQ Require Import circuit.CModel circuit.CThm circuit.CThm2 circuit.CViews circuit.CViewsThm circuit.CFold circuit.CFoldThm.
+From BQ Require Import circuit.CModel circuit.CThm circuit.CThm2 circuit.CHistThm circuit.CViews circuit.CViewsThm circuit.CFold circuit.CFoldThm.
 
 (* ---- (a) the invariant ------------------------------------------------------------------ *)
 Theorem C05_append_inv : forall c o, Inv c -> Inv (fst (append_raw c o)).
@@ -76,10 +76,36 @@ Proof. exact history_inv_full. Qed.
 Theorem C05_history_inv_range : forall ks n rs, Forall no_unfold_all ks ->
   Inv (fold_left do_callF ks (mkC n rs [])) /\ in_range (fold_left do_callF ks (mkC n rs [])).
 Proof. exact history_inv_range_empty. Qed.
-(* to do: include unfold_all by a static well-formedness of block arguments (inner operations fit
-   the block's location, recursively) *)
+(* unfold_all included, NO side condition but the constructor's `num_qudits > 0` (Circuit(0) raises;
+   pop_qudit refuses to remove the last qudit - both checked on the implementation on every run):
+   every history over the whole alphabet (22 calls, ANY arguments, ill-formed blocks included) from the
+   empty circuit keeps the invariant and every operation on qudits of the circuit.  unfold_all relabels
+   an inner operation through the block's location, which is made of qudits of the circuit. *)
+Theorem C05_history_inv_unconditional : forall ks n rs, 0 < n ->
+  Inv (fold_left do_callF ks (mkC n rs [])) /\ in_range (fold_left do_callF ks (mkC n rs [])).
+Proof. exact history_inv_unconditional_empty. Qed.
+(* the same from any state: invariant, range and width are kept by every call *)
+Theorem C05_history_inv_unconditional_from : forall ks c, Inv c -> 0 < nq c -> in_range c ->
+  Inv (fold_left do_callF ks c) /\ in_range (fold_left do_callF ks c) /\ 0 < nq (fold_left do_callF ks c).
+Proof. exact history_inv_unconditional. Qed.
+Theorem C05_unfold_all_in_range : forall fuel c c', 0 < nq c -> in_range c -> unfold_all_fuel fuel c = Some c' -> in_range c'.
+Proof. exact unfold_all_inr. Qed.
+(* the statement for EVERY width, as it was left open, *)
 Definition C05_history_inv_unconditional_full : Prop :=
   forall ks n rs, Inv (fold_left do_callF ks (mkC n rs [])).
+(* is false of the model at width 0 only - a circuit the constructor rejects, so the witness cannot be
+   replayed on the implementation (the harness checks that `Circuit(0)` raises ValueError): unfold_all of
+   a block on no qudits brings in an inner operation on "qudit 0" of a 0-qudit circuit, insert_qudit moves
+   it to qudit 1 of a 1-qudit circuit, a checked append on qudit 0 shares its cycle and
+   renumber_qudits [0] maps both to qudit 0 *)
+Theorem C05_history_inv_unconditional_full_refuted_width0 : ~ C05_history_inv_unconditional_full.
+Proof. intros H. exact (history_width0_refuted (H w0_history 0 [])). Qed.
+Example C05_unconditional_nonvacuous :
+  let inner := Op false 1 [7] [] [2] [] in           (* an ill-formed block: inner qudit 7 of a 1-qudit block *)
+  let blk := Op true 0 [1] [] [2] [[inner]] in
+  let ks := [FAppend blk; FUnfoldAll 3; FAppend (Op false 1 [1] [] [2] []); FRenumber [1;0]] in
+  cycles (fold_left do_callF ks (mkC 2 [2;2] [])) = [[Op false 1 [1] [] [2] []; Op false 1 [0] [] [2] []]].
+Proof. vm_compute. reflexivity. Qed.
 
 (* iteration yields each qudit's operations in timeline order *)
 Theorem C05_iteration_compatible : forall cs q,
